@@ -210,6 +210,30 @@ fn check_blinded_forward(
 	Ok((amt_to_forward, outgoing_cltv_value))
 }
 
+
+// ---- final hop (R15 statement slicing): the three acceptance tests of create_recv_pending_htlc_info, in their order ----
+pub fn final_hop_acceptance_tests(onion_cltv_expiry: u32, cltv_expiry: u32, current_height: u32, allow_underpay: bool, onion_amt_msat: u64, amt_msat: u64, counterparty_skimmed_fee_msat: Option<u64>) -> (r: Result<(), u8>)
+    requires
+    current_height <= 0x7fff_ffff,
+
+    ensures
+    r is Ok ==> cltv_expiry as int > current_height + HTLC_FAIL_BACK_BUFFER + 1 && onion_cltv_expiry <= cltv_expiry,
+    r is Ok ==> cltv_expiry as int - HTLC_FAIL_BACK_BUFFER as int > current_height + 1,
+    r is Ok ==> (if allow_underpay { onion_amt_msat as int <= amt_msat as int + (if counterparty_skimmed_fee_msat is Some { counterparty_skimmed_fee_msat->Some_0 as int } else { 0 }) || amt_msat as int + (if counterparty_skimmed_fee_msat is Some { counterparty_skimmed_fee_msat->Some_0 as int } else { 0 }) > u64::MAX }
+                 else { onion_amt_msat <= amt_msat }),
+ {
+        if onion_cltv_expiry > cltv_expiry { return Err(1); }
+        if cltv_expiry <= current_height + HTLC_FAIL_BACK_BUFFER + 1 { return Err(2); }
+        if (!allow_underpay && onion_amt_msat > amt_msat) ||
+		(allow_underpay && onion_amt_msat >
+		 amt_msat.saturating_add(counterparty_skimmed_fee_msat.unwrap_or(0))) { return Err(3); }
+        Ok(())
+    }
+
+proof fn vac__final_hop_acceptance_tests(onion_cltv_expiry: u32, cltv_expiry: u32, current_height: u32, allow_underpay: bool, onion_amt_msat: u64, amt_msat: u64, counterparty_skimmed_fee_msat: Option<u64>) 
+    requires current_height <= 0x7fff_ffff,
+    ensures false
+{}
 }
 fn main() {}
 
